@@ -11,9 +11,12 @@ package v2
 // cluster is called only with points that passed every check, each within the size limit; 200 is
 // only sent after the cluster call returned without error. (The collection in the request context
 // is put there by the collection middleware: the type assertion is not checked here.)
+//@ immutable SemaDBHandlers.clusterNode set once when the handlers are set up
 //@ func (*SemaDBHandlers).HandleInsertPoints
 //@   property C18
 //@   safety -overflow -nil -typeassert
+//@   requires len(sdbh.clusterNode.Servers) >= 1
+//@   after Value assume forall(a, 0, len(dyn(result, models.Collection).ShardIds), forall(b, 0, len(dyn(result, models.Collection).ShardIds), a != b ==> dyn(result, models.Collection).ShardIds[a] != dyn(result, models.Collection).ShardIds[b]))
 //@   requires sdbh.clusterNode.cfg.MaxShardPointCount >= 1 && sdbh.clusterNode.cfg.MaxShardPointCount <= 4611686018427387904 && sdbh.clusterNode.cfg.MaxShardSize >= 0 && sdbh.clusterNode.cfg.MaxShardSize <= 4611686018427387904
 //@   before Encode requires ncalls(InsertPoints) == 0 ==> arg1 == 400
 //@   before Encode requires arg1 == 200 ==> ncalls(InsertPoints) == 1 && callres(InsertPoints, 1, 1) == nil
